@@ -58,6 +58,10 @@ CONSTANTS NTx,        \* transactions 1..NTx; parents of i are a subset of 1..i-
           Outs,       \* outcomes handed to the request handler's callback
           ROuts,      \* outcomes handed to a rebroadcast's callback
           FixMarkQuit,
+          Rels,       \* {} : confirmations are reported by MarkCall(tx);  otherwise the rescan slice:
+                      \* Mined(tx, class) = the rescan (real extractBlockMatches) finds tx in a block,
+                      \* class in Rels = why the tx is relevant to it: "spend" (a watched input),
+                      \* "pay" (only an output to a watched address), "both", "neither"
           MaxWait,    \* how many parties may wait for the busy handler at once (big steps)
           Fine        \* TRUE: small-step semantics (model-level check), FALSE: big steps (replay)
 
@@ -170,7 +174,7 @@ Res(op, o2) ==
   CASE op = "BcastCall" -> IF o2.bc = 1 THEN "pending" ELSE IF o2.bc = 2 THEN "hung"
                            ELSE IF o2.bcRes = 3 THEN "stopped"
                            ELSE IF o2.bcRes = 1 THEN "ok" ELSE "err"
-    [] op = "MarkCall"  -> IF o2.mk = 0 THEN "ok" ELSE IF o2.mk = 1 THEN "pending" ELSE "hung"
+    [] op \in {"MarkCall", "Mined"} -> IF o2.mk = 0 THEN "ok" ELSE IF o2.mk = 1 THEN "pending" ELSE "hung"
     [] op = "Stop"      -> IF o2.stp = 3 THEN "ok" ELSE IF o2.stp = 1 THEN "pending" ELSE "hung"
     [] op = "Block"     -> "delivered"
     [] OTHER            -> "ok"
@@ -188,6 +192,10 @@ GRbRel(x)   == x.rb = "cb"
 ERbRel(x, o) == [x EXCEPT !.rb = "ret", !.rbOut = o]       \* :248 returns
 GMark(x)    == x.mk = "none" /\ x.nops < MaxOps /\ x.nm < MaxM
 EMark(x, t) == [x EXCEPT !.mk = "send", !.mktx = t, !.nops = @ + 1, !.nm = @ + 1]  \* :319
+\* extractBlockMatches rescan.go:1039: every relevant tx of the block is handed
+\* to MarkAsConfirmed :1107 (so the call blocks exactly as MarkCall does); a tx
+\* the rescan does not care about is not reported.
+EMined(x, t, r) == IF r = "neither" THEN [x EXCEPT !.nops = @ + 1, !.nm = @ + 1] ELSE EMark(x, t)
 GBlock(x)   == x.h = "idle" /\ x.nops < MaxOps
 EBlock(x)   == Trigger([x EXCEPT !.nops = @ + 1])          \* :205
 GTick(x)    == x.h # "dead" /\ x.tick = 0 /\ x.nops < MaxOps
@@ -210,7 +218,8 @@ Do(x0, op, tx, out) ==
 BcastCall(t) == GBcast(s) /\ Do(EBcast(S0, t), "BcastCall", t, "")
 HRelease(o)  == GHRel(s)  /\ Do(EHRel(S0, o), "HRelease", s.hreq, o)
 RbRelease(o) == GRbRel(s) /\ Do(ERbRel(S0, o), "RbRelease", s.rbCur, o)
-MarkCall(t)  == GMark(s)  /\ Do(EMark(S0, t), "MarkCall", t, "")
+MarkCall(t)  == Rels = {} /\ GMark(s) /\ Do(EMark(S0, t), "MarkCall", t, "")
+Mined(t, r)  == GMark(s)  /\ Do(EMined(S0, t, r), "Mined", t, r)
 Block        == GBlock(s) /\ Do(EBlock(S0), "Block", 0, "")
 Tick         == GTick(s)  /\ Do(ETick(S0), "Tick", 0, "")
 Stop         == GStop(s)  /\ Do(EStop(S0), "Stop", 0, "")
@@ -223,6 +232,7 @@ FineNext ==
      \/ \E o \in Outs : GHRel(s) /\ s' = EHRel(s, o)
      \/ \E o \in ROuts : GRbRel(s) /\ s' = ERbRel(s, o)
      \/ \E t \in Txs : GMark(s) /\ s' = EMark(s, t)
+     \/ \E t \in Txs : \E r \in Rels : GMark(s) /\ s' = EMined(s, t, r)
      \/ GBlock(s) /\ s' = EBlock(s)
      \/ GTick(s) /\ s' = ETick(s)
      \/ GStop(s) /\ s' = EStop(s)
@@ -247,6 +257,7 @@ BigNext ==
   \/ \E o \in Outs : HRelease(o)
   \/ \E o \in ROuts : RbRelease(o)
   \/ \E t \in Txs : MarkCall(t)
+  \/ \E t \in Txs : \E r \in Rels : Mined(t, r)
   \/ Block
   \/ Tick
   \/ Stop
